@@ -202,6 +202,8 @@ def run(ctx):
                     if rng.random() < 0.5:
                         lo = v - float(rng.random()) if rng.random() < 0.8 else None
                         hi = v + float(rng.random()) if rng.random() < 0.8 else None
+                        if rng.random() < 0.15:
+                            lo = hi = v                 # degenerate interval: only the current value is legal
                         bounds = [lo, hi]
                     p = P(v, bounds=bounds, label="p%d" % len(params) if rng.random() < 0.5 else None)
                     params.append((p, role))
